@@ -409,6 +409,14 @@ func newIAT(r *rng.R, num int, max int, clean bool) ach.IATBatch {
 		vo = &ach.ValidateOpts{BypassOriginValidation: r.Bool(), CustomTraceNumbers: r.Bool()}
 		nb.SetValidation(vo)
 	}
+	if clean && r.Chance(1, 6) {
+		// the caller's own trace numbers (any order, foreign ODFI): Create must keep them
+		vo = &ach.ValidateOpts{CustomTraceNumbers: true}
+		nb.SetValidation(vo)
+		for _, e := range nb.Entries {
+			e.TraceNumber = fmt.Sprintf("%08d%07d", r.Range(1, 99999999), r.Range(1, 9999999))
+		}
+	}
 	pendingOpts = append(pendingOpts, vo)
 	return nb
 }
@@ -641,6 +649,9 @@ func (w *world) drawOp(k, total int) op {
 				e := iatEntryFor(r, src.GetEntries()[0], mode, len(f.IATBatches[i].Entries), clean)
 				if clean {
 					e.TransactionCode, e.Amount = sameDirection(r, f.IATBatches[i].Header.ServiceClassCode, e.TransactionCode), r.Range(1, 999999)
+					if i < len(w.iopts) && w.iopts[i] != nil && w.iopts[i].CustomTraceNumbers {
+						e.TraceNumber = fmt.Sprintf("%08d%07d", r.Range(1, 99999999), r.Range(1, 9999999))
+					}
 				}
 				return op{Code: "IA", I: i, iat: e}
 			}
@@ -1543,6 +1554,27 @@ func runOracle(c caseSpec) (fails []failure, nontrivial bool, outs []outcome) {
 		}
 		return true
 	}
+	provided := false // some batch number given by the caller (> 1): File.Create keeps it
+	for _, b := range f.Batches {
+		if b.GetHeader().BatchNumber > 1 {
+			provided = true
+		}
+	}
+	for i := range f.IATBatches {
+		if f.IATBatches[i].Header.BatchNumber > 1 {
+			provided = true
+		}
+	}
+	customTraces := func(i int) []string {
+		if i >= len(w.iopts) || w.iopts[i] == nil || !w.iopts[i].CustomTraceNumbers {
+			return nil
+		}
+		var out []string
+		for _, e := range f.IATBatches[i].Entries {
+			out = append(out, e.TraceNumber)
+		}
+		return out
+	}
 	mixedADV := false
 	if f.IsADV() {
 		for _, b := range f.Batches {
@@ -1553,6 +1585,10 @@ func runOracle(c caseSpec) (fails []failure, nontrivial bool, outs []outcome) {
 	}
 	nops := c.MaxOps
 	step := func(k int, o op) bool {
+		var kept []string
+		if o.Code == "IB" {
+			kept = customTraces(o.I)
+		}
 		out, detail := w.apply(o, false)
 		outs = append(outs, out)
 		if out == outPANIC || out == outHANG {
@@ -1572,6 +1608,12 @@ func runOracle(c caseSpec) (fails []failure, nontrivial bool, outs []outcome) {
 			}
 			created[tag] = true
 			nontrivial = true
+			if kept != nil {
+				if now := customTraces(o.I); strings.Join(now, ",") != strings.Join(kept, ",") {
+					fail(k, "iat:custom-trace-overwritten", "CustomTraceNumbers is set, Create changed the trace numbers "+strings.Join(kept, ",")+" to "+strings.Join(now, ","))
+					return false
+				}
+			}
 			// a second Create changes nothing
 			before := w.abs()
 			var out2 outcome
@@ -1615,8 +1657,11 @@ func runOracle(c caseSpec) (fails []failure, nontrivial bool, outs []outcome) {
 				return true
 			}
 			asc, nums := ascendingNumbers(f)
-			if !asc {
+			if !asc && provided {
 				fail(k, "file:create-keeps-provided-numbers", "File.Create returned nil and left the batch numbers "+nums+" (not ascending)")
+			} else if !asc {
+				fail(k, "file:batch-numbers-not-ascending", "no batch number was provided (all <= 1); File.Create returned nil and left the batch numbers "+nums)
+				return false
 			}
 			if asc {
 				if vo, vd := guarded(f.Validate); vo != outOK {
